@@ -184,7 +184,8 @@ def check_quiescent(view, expect_empty_dlq=True):
             v.append({"kind": "running-under-finished-workflow", "stages": run, "tasks": trun, "wf": wf,
                       "sig": f"running-under-finished:{wf}"})
     if expect_empty_dlq and view.dlq:
-        v.append({"kind": "dlq-not-empty", "dlq": [m["type"] for m in view.dlq], "sig": "dlq-not-empty"})
+        v.append({"kind": "dlq-not-empty", "dlq": [m["type"] for m in view.dlq],
+                  "sig": "dlq-not-empty:" + ",".join(sorted({m["type"] for m in view.dlq})) + f":wf={view.wf['status']}"})
     return v
 
 
